@@ -95,11 +95,26 @@ def run(R, tier):
                     viol('index-commutes', f'(X {sym} Y)[{idx}] != X[{idx}] {sym} Y[{idx}] in Algebra({algs.describe(spec)}), shape {shape}, {container}',
                          algebra=spec, op=sym, index=str(idx), keys=[ka, kb])
         for opname in rng.sample(UNARY, 3):
-            res = getattr(alg, opname)(X)
+            # the three public forms in turn: alg.op(X), the method X.op(), the prefix operator where there is one
+            form = rng.choice(['alg', 'method', 'prefix'])
+            def un(v):
+                if form == 'prefix' and opname == 'reverse':
+                    return ~v
+                if form == 'prefix' and opname == 'neg':
+                    return -v
+                if form == 'method' and hasattr(v, opname):
+                    return getattr(v, opname)()
+                return getattr(alg, opname)(v)
             idx = rng.choice(idxs)
-            R.case(('idx1', algs.describe(spec), opname, tuple(ka), str(shape), str(idx)), True)
-            if not same(items(res[idx]), items(getattr(alg, opname)(X[idx]))):
-                viol('index-commutes', f'{opname}(X)[{idx}] != {opname}(X[{idx}])', algebra=spec, op=opname, index=str(idx))
+            R.count('unary-form=' + form); R.case(('idx1', algs.describe(spec), opname, form, tuple(ka), str(shape), str(idx)), True)
+            try:
+                res = un(X)
+                ok = same(items(res[idx]), items(un(X[idx])))
+            except Exception as e:  # noqa
+                viol('array-op-raises', f'{opname}(X) ({form} form) raised {type(e).__name__}: {e} for shape {shape} ({container})'[:300], algebra=spec, op=opname)
+                continue
+            if not ok:
+                viol('index-commutes', f'{opname}(X)[{idx}] != {opname}(X[{idx}]) ({form} form, shape {shape}, {container})', algebra=spec, op=opname, index=str(idx))
         # 2. getitem / setitem touch exactly the addressed entries
         idx = rng.choice(idxs)
         before = [np.array(v, dtype=float).copy() for v in X.values()]
@@ -179,6 +194,587 @@ def run(R, tier):
                 if not same(got, want):
                     viol('callable-operand', f'a nested callable on the {side} of {sym} is not replaced by its value with the operand order kept',
                          algebra=spec, op=sym, side=side)
+
+
+# ======================================================================================================
+# correspondence with Model/Storage.v (evaluated inside Coq): storage kinds, index forms, assignment,
+# shape / itermv / items / map, and the operand normalisation of OperatorDict._call_binary
+# ======================================================================================================
+class Unobservable(Exception):
+    pass
+
+
+def coef_term(e):
+    kind, v = e
+    if kind == 'arr':
+        return f'(CArr {kv.zlist(v)})'
+    return f'({"CNp" if kind == "np" else "CNum"} {kv.Z(v)})'
+
+
+def store_term(s):
+    if s[0] == 'list':
+        return '(LBack (' + kv.blist(coef_term(e) for e in s[1]) + ' : list (coef Z)))'
+    if s[0] == 'nd1':
+        return f'(Nd1 ({kv.zlist(s[1])} : list Z))'
+    return f'(Nd2 {kv.nat(s[1])} ({kv.blist(kv.zlist(r) for r in s[2])} : list (list Z)))'
+
+
+def smv_term(keys, s):
+    return f'(mkSmv {kv.zlist(keys)} {store_term(s)})'
+
+
+def build_store(s):
+    import numpy as np
+    if s[0] == 'list':
+        return [np.array(v, dtype=np.int64) if k == 'arr' else (np.int64(v) if k == 'np' else int(v)) for k, v in s[1]]
+    if s[0] == 'nd1':
+        return np.array(s[1], dtype=np.int64)
+    return np.array(s[2], dtype=np.int64).reshape(len(s[2]), s[1])
+
+
+def obs_store(vals):
+    import numpy as np
+    if isinstance(vals, np.ndarray):
+        if vals.ndim == 1:
+            return ('nd1', [int(x) for x in vals])
+        if vals.ndim == 2:
+            return ('nd2', int(vals.shape[1]), [[int(x) for x in r] for r in vals])
+        raise Unobservable(f'ndarray of rank {vals.ndim}')
+    if not isinstance(vals, (list, tuple)):
+        raise Unobservable(type(vals).__name__)
+    out = []
+    for v in vals:
+        if isinstance(v, np.ndarray):
+            if v.ndim != 1:
+                raise Unobservable(f'entry of rank {v.ndim}')
+            out.append(('arr', [int(x) for x in v]))
+        elif isinstance(v, np.generic):
+            out.append(('np', int(v)))
+        elif isinstance(v, (int, float)):
+            out.append(('num', int(v)))
+        else:
+            raise Unobservable(type(v).__name__)
+    return ('list', out)
+
+
+def store_entries(s):
+    """coarse view: per key (values, is_array)"""
+    if s[0] == 'list':
+        return [(list(v), True) if k == 'arr' else ([v], False) for k, v in s[1]]
+    if s[0] == 'nd1':
+        return [([v], False) for v in s[1]]
+    return [(list(r), True) for r in s[2]]
+
+
+def idx1_term(i):
+    if isinstance(i, slice):
+        o = lambda v: 'None' if v is None else f'(Some {kv.Z(v)})'
+        return f'(ISlice (mkSlice {o(i.start)} {o(i.stop)} {o(i.step)}))'
+    return f'(IInt {kv.Z(i)})'
+
+
+def item_term(it):
+    if isinstance(it, tuple):
+        return '(PyTup (' + kv.blist(idx1_term(i) for i in it) + ' : list idx1))'
+    return f'(PyOne {idx1_term(it)})'
+
+
+def item_enc(it):
+    e1 = lambda i: ['s', i.start, i.stop, i.step] if isinstance(i, slice) else i
+    return {'t': [e1(i) for i in it]} if isinstance(it, tuple) else e1(it)
+
+
+def item_dec(j):
+    d1 = lambda i: slice(i[1], i[2], i[3]) if isinstance(i, list) else i
+    return tuple(d1(i) for i in j['t']) if isinstance(j, dict) else d1(j)
+
+
+def err_name(e):
+    return oc.ERRMAP.get(type(e).__name__, 'EOther')
+
+
+def positions(item, n):
+    """positions of an axis of length n the subscript addresses (python's own slice.indices), None = the
+    subscript is invalid for this axis"""
+    ix = item if isinstance(item, tuple) else (item,)
+    if len(ix) == 0:
+        return list(range(n)), True
+    if len(ix) > 1:
+        return None, None
+    i = ix[0]
+    if isinstance(i, slice):
+        if i.step == 0:
+            return None, None
+        return list(range(*i.indices(n))), True
+    if -n <= i < n:
+        return [i % n], False
+    return None, None
+
+
+def rand_idx1(rng, n):
+    if rng.random() < 0.5:
+        return rng.randint(-n - 2, n + 1)
+    o = lambda: None if rng.random() < 0.35 else rng.randint(-n - 3, n + 3)
+    return slice(o(), o(), rng.choice([None, None, 1, 1, 2, -1, -1, -2, 3, -3, 0]))
+
+
+def rand_item(rng, n):
+    u = rng.random()
+    if u < 0.7:
+        return rand_idx1(rng, n)
+    if u < 0.78:
+        return ()
+    if u < 0.93:
+        return (rand_idx1(rng, n),)
+    return (rand_idx1(rng, n), rand_idx1(rng, n))
+
+
+def rand_store(rng, k=None, n=None, kinds=('list', 'list', 'nd2', 'nd2', 'nd1')):
+    k = rng.choice((0, 1, 1, 2, 2, 3, 3, 4)) if k is None else k
+    n = rng.randint(1, 4) if n is None else n
+    kind = rng.choice(kinds)
+    val = lambda: rng.randint(-9, 9)
+    if kind == 'nd1':
+        return ('nd1', [val() for _ in range(k)])
+    if kind == 'nd2':
+        return ('nd2', n, [[val() for _ in range(n)] for _ in range(k)])
+    mode = rng.choice(['uniform'] * 5 + ['ragged', 'mixed'])
+    ents = []
+    for _ in range(k):
+        if mode == 'mixed' and rng.random() < 0.4:
+            ents.append((rng.choice(['np', 'num']), val()))
+        else:
+            ents.append(('arr', [val() for _ in range(n if mode != 'ragged' else rng.randint(0, 4))]))
+    return ('list', ents)
+
+
+def store_kind(s):
+    if s[0] != 'list':
+        return 'ndarray' if s[0] == 'nd2' else 'ndarray-1d'
+    ks = {k for k, _ in s[1]}
+    if ks <= {'arr'}:
+        return 'list-of-arrays' if len({len(v) for _, v in s[1]}) <= 1 else 'list-ragged'
+    return 'list-mixed'
+
+
+def axis_len(s):
+    if s[0] == 'nd2':
+        return s[1]
+    if s[0] == 'list':
+        for k, v in s[1]:
+            if k == 'arr':
+                return len(v)
+    return 2
+
+
+def getitem_case(alg, keys, Xs, item):
+    """run X[item] on the real code; -> (case dict for Coq, direct-oracle failure or None)"""
+    from kingdon import MultiVector
+    X = MultiVector.fromkeysvalues(alg, tuple(keys), build_store(Xs))
+    oracle = None
+    try:
+        Y = X[item]
+        out = obs_store(Y.values())
+        exp = f'(Ok {smv_term(list(Y.keys()), out)})'
+        impl = {'keys': list(Y.keys()), 'values': out}
+        # the property itself: same keys in the same order, per key exactly values[key][idx]
+        want = []
+        for (vals, isarr), kind in zip(store_entries(Xs), [k for k, _ in Xs[1]] if Xs[0] == 'list' else itertools.repeat('np')):
+            if isarr:
+                ps, keep = positions(item, len(vals))
+            else:       # a numpy scalar may be subscripted with the empty tuple only, a python number not at all
+                ps, keep = ([0], False) if item == () and kind != 'num' else (None, None)
+            if ps is None:
+                want = None
+                break
+            want.append(([vals[p] for p in ps], keep))
+        if list(Y.keys()) != list(keys) or want is None or store_entries(out) != want:
+            oracle = f'X[{item!r}] = {out} for values {Xs}: not values[key][idx] for every key'
+    except Unobservable as e:
+        exp, impl = '(Err EOther)', f'unobservable result: {e}'
+    except Exception as e:  # noqa
+        exp, impl = f'(Err {err_name(e)})', type(e).__name__
+        ents = store_entries(Xs)
+        if ents and all(isarr and positions(item, len(vals))[0] is not None for vals, isarr in ents):
+            oracle = f'X[{item!r}] raised {type(e).__name__} although the subscript is valid for every coefficient of {Xs}'
+    Xt, it = smv_term(keys, Xs), item_term(item)
+    return {'check': f'res_eqb smv_eqb (mv_getitem {Xt} {it}) {exp}',
+            'coarse': f'res_eqb smv_coarse_eqb (mv_getitem {Xt} {it}) {exp}',
+            'show': f'mv_getitem {Xt} {it}',
+            'meta': {'clause': 'storage-getitem', 'keys': list(keys), 'X': Xs, 'item': item_enc(item), 'impl': impl}}, oracle
+
+
+def rhs_term(V):
+    if V[0] == 'mv':
+        return f'(FromMv {kv.zlist(V[1])} {store_term(V[2])})'
+    if V[0] == 'raw':
+        return f'(FromRaw {store_term(V[1])})'
+    return f'(FromNum {kv.Z(V[1])})'
+
+
+def build_rhs(alg, V):
+    from kingdon import MultiVector
+    if V[0] == 'mv':
+        return MultiVector.fromkeysvalues(alg, tuple(V[1]), build_store(V[2]))
+    if V[0] == 'raw':
+        return build_store(V[1])
+    return int(V[1])
+
+
+def rand_rhs(rng, alg, keys, Xs, item):
+    """-> (V descriptor, mode).  'aligned' = a multivector with the keys of X and the shape of X[item]."""
+    from kingdon import MultiVector
+    k = len(store_entries(Xs))
+    val = lambda: rng.randint(-9, 9)
+    mode = rng.choice(['aligned'] * 6 + ['scalars'] * 2 + ['misaligned', 'wrongkeys', 'raw', 'raw', 'num'])
+    shapes = None
+    try:
+        import numpy as np
+        Y = MultiVector.fromkeysvalues(alg, tuple(keys), build_store(Xs))[item]
+        shapes = [tuple(np.shape(v)) for v in Y.values()]
+    except Exception:  # noqa
+        pass
+    if mode in ('aligned', 'wrongkeys'):
+        if shapes is None or len(shapes) != len(keys) or (Xs[0] == 'list' and any(kd != 'arr' for kd, _ in Xs[1])):
+            shapes = [rng.choice([(), (rng.randint(0, 3),)]) for _ in range(k)]
+            mode = 'misaligned' if mode == 'aligned' else mode
+        if shapes and all(sh == shapes[0] for sh in shapes) and rng.random() < 0.5:
+            st = ('nd1', [val() for _ in shapes]) if shapes[0] == () else \
+                 ('nd2', shapes[0][0], [[val() for _ in range(shapes[0][0])] for _ in shapes])
+        else:
+            st = ('list', [(rng.choice(['np', 'num']), val()) if sh == () else ('arr', [val() for _ in range(sh[0])]) for sh in shapes])
+        ks = list(keys)
+        if mode == 'aligned' and k == 0:
+            mode = 'aligned-empty'     # no key: np.asarray([]) has shape (0,), which need not broadcast to (0, p)
+        if mode == 'wrongkeys':
+            ks = ks[::-1] if len(set(ks)) > 1 and rng.random() < 0.5 else ks + [99]
+            if ks == list(keys):
+                mode = 'aligned'
+        return ('mv', ks, st), mode
+    if mode == 'scalars':
+        st = ('nd1', [val() for _ in range(k)]) if rng.random() < 0.5 else ('list', [(rng.choice(['np', 'num']), val()) for _ in range(k)])
+        return ('mv', list(keys), st), mode
+    if mode == 'misaligned':
+        return ('mv', list(keys), rand_store(rng, k=k, n=rng.randint(0, 4))), mode
+    if mode == 'raw':
+        return ('raw', rand_store(rng, k=max(0, rng.choice((k - 1, k, k, k + 1, 1, 0))), n=rng.choice((axis_len(Xs), rng.randint(0, 4))))), mode
+    return ('num', val()), mode
+
+
+def setitem_case(alg, keys, Xs, item, V, mode):
+    from kingdon import MultiVector
+    X = MultiVector.fromkeysvalues(alg, tuple(keys), build_store(Xs))
+    Vpy = build_rhs(alg, V)
+    err = None
+    try:
+        X[item] = Vpy
+    except Exception as e:  # noqa
+        err = e
+    oracle = None
+    try:
+        after = obs_store(X.values())
+        exp = f'({store_term(after)}, {"None" if err is None else "Some " + err_name(err)})'
+        impl = {'values': after, 'raised': None if err is None else type(err).__name__}
+        # the property itself.  Frame: nothing but the addressed entries of every coefficient changes, whatever happens.
+        b, a = store_entries(Xs), store_entries(after)
+        if len(a) != len(b) or list(X.keys()) != list(keys):
+            oracle = ('setitem-frame', 'number of coefficients or keys changed')
+        else:
+            for j, ((bv, barr), (av, aarr)) in enumerate(zip(b, a)):
+                if barr:
+                    ps = positions(item, len(bv))[0]
+                else:       # a scalar coefficient of a 1-D ndarray is addressed by the empty subscript; list entries that are numbers never
+                    ps = [0] if item == () and Xs[0] == 'nd1' else None
+                if barr != aarr or len(av) != len(bv) or any(av[q] != bv[q] for q in range(len(bv)) if ps is None or q not in ps):
+                    oracle = ('setitem-frame', f'coefficient {j} changed outside the addressed entries: {bv} -> {av}')
+                    break
+        # Exact: an aligned multivector is stored entry for entry
+        if oracle is None and mode == 'aligned':
+            if err is not None:
+                oracle = ('setitem-raises', f'raised {type(err).__name__}: {err}'[:200])
+            else:
+                got = store_entries(obs_store(X[item].values()))
+                if got != store_entries(V[2]):
+                    oracle = ('setitem-exact', f'X[idx] afterwards holds {got}, assigned {store_entries(V[2])}')
+    except Unobservable as e:
+        exp, impl = '(LBack [], Some EOther)', f'unobservable: {e}'
+    Xt, it, Vt = smv_term(keys, Xs), item_term(item), rhs_term(V)
+    return {'check': f'set_outcome_eqb (mv_setitem {Xt} {it} {Vt}) {exp}',
+            'coarse': f'set_outcome_coarse_eqb (mv_setitem {Xt} {it} {Vt}) {exp}',
+            'show': f'mv_setitem {Xt} {it} {Vt}',
+            'meta': {'clause': 'storage-setitem', 'keys': list(keys), 'X': Xs, 'item': item_enc(item), 'V': V, 'mode': mode, 'impl': impl}}, oracle
+
+
+def misc_case(alg, keys, Xs, what):
+    """shape / itermv / items / map against the model"""
+    from kingdon import MultiVector
+    X = MultiVector.fromkeysvalues(alg, tuple(keys), build_store(Xs))
+    Xt = smv_term(keys, Xs)
+    if what == 'shape':
+        try:
+            exp = kv.natlist(X.shape); chk = f'list_eqb Nat.eqb (mv_shape {Xt}) {exp}'
+        except Exception as e:  # noqa
+            exp = type(e).__name__; chk = 'false'
+        show = f'mv_shape {Xt}'
+    elif what == 'itermv':
+        try:
+            g = X.itermv()
+            if g is X:
+                exp = f'(ItSelf {Xt})'
+            else:
+                outs = []
+                while True:
+                    try:
+                        Y = next(g)
+                        outs.append(f'(Ok {smv_term(list(Y.keys()), obs_store(Y.values()))})')
+                    except StopIteration:
+                        break
+                    except Unobservable:
+                        outs.append('(Err EOther)'); break
+                    except Exception as e:  # noqa
+                        outs.append(f'(Err {err_name(e)})'); break
+                exp = '(ItGen (' + kv.blist(outs) + ' : list (res (smv Z))))'
+        except Exception as e:  # noqa
+            exp = f'(ItErr {err_name(e)})'
+        chk = f'iter_eqb (match mv_itermv {Xt} true with ItGen g => ItGen (gen_consume g) | r => r end) {exp}'
+        show = f'mv_itermv {Xt} true'
+    elif what == 'itermv-axis':
+        try:
+            g = X.itermv(axis=0)
+            exp = f'(ItSelf {Xt})' if g is X else '(ItErr EOther)'
+        except Exception as e:  # noqa
+            exp = f'(ItErr {err_name(e)})'
+        chk = f'iter_eqb (mv_itermv {Xt} false) {exp}'
+        show = f'mv_itermv {Xt} false'
+    elif what == 'items':
+        its = list(X.items())
+        ent = obs_store([v for _, v in its])
+        exp = kv.blist(kv.pair(kv.Z(k), coef_term(e)) for (k, _), e in zip(its, ent[1]))
+        chk = (f'list_eqb (pair_eqb Z.eqb coef_eqb) (mv_items {Xt}) ({exp} : list (Z * coef Z)) && list_eqb Z.eqb (mv_keys {Xt}) {kv.zlist(X.keys())} '
+               f'&& store_eqb (mv_values {Xt}) {store_term(obs_store(X.values()))} && Nat.eqb (mv_len {Xt}) {kv.nat(len(X))}')
+        show = f'mv_items {Xt}'
+    else:
+        two = what == 'map2'
+        Y = X.map((lambda k, v: v) if two else (lambda v: v))
+        exp = smv_term(list(Y.keys()), obs_store(Y.values()))
+        chk = f'smv_eqb ({"mv_map2 (fun _ c => c)" if two else "mv_map1 (fun c => c)"} {Xt}) {exp}'
+        show = f'mv_map1 (fun c => c) {Xt}'
+    return {'check': chk, 'coarse': chk, 'show': show,
+            'meta': {'clause': 'storage-' + what, 'keys': list(keys), 'X': Xs, 'impl': exp}}
+
+
+# ---- operands
+def rand_operand(rng, depth, keysets, other_p=0.04):
+    u = rng.random()
+    if depth <= 0 or u < 0.3:
+        if rng.random() < 0.4:
+            return ('num', rng.choice([v for v in range(-5, 6) if v]), rng.choice(['int', 'int', 'np']))
+        ks = rng.choice(keysets)
+        return ('mv', 1 if rng.random() < other_p else 0, [(k, v) for k, v in zip(ks, oc.random_values(rng, len(ks), zero_p=0))])
+    if u < 0.55:
+        return ('seq', [rand_operand(rng, depth - 1, keysets, other_p) for _ in range(rng.choice((0, 1, 2, 2, 3)))])
+    if u < 0.75:
+        return ('tup', [rand_operand(rng, depth - 1, keysets, other_p) for _ in range(rng.choice((0, 1, 2, 2, 3)))])
+    return ('call', rand_operand(rng, depth - 1, keysets, other_p))
+
+
+def build_operand(algs2, o):
+    import numpy as np
+    if o[0] == 'num':
+        return np.int64(o[1]) if o[2] == 'np' else int(o[1])
+    if o[0] == 'mv':
+        return oc.make_mv(algs2[o[1]], [k for k, _ in o[2]], [v for _, v in o[2]])
+    if o[0] == 'seq':
+        return [build_operand(algs2, x) for x in o[1]]
+    if o[0] == 'tup':
+        return tuple(build_operand(algs2, x) for x in o[1])
+    v = build_operand(algs2, o[1])
+    return lambda v=v: v
+
+
+def operand_term(o):
+    if o[0] == 'num':
+        return f'(ONum {kv.Z(o[1])})'
+    if o[0] == 'mv':
+        return f'(OMv {kv.nat(o[1])} ({oc.mv_term(o[2])} : mv Z))'
+    if o[0] in ('seq', 'tup'):
+        return f'({"OSeq" if o[0] == "seq" else "OTup"} ({kv.blist(operand_term(x) for x in o[1])} : list (operand Z)))'
+    return f'(OCall {operand_term(o[1])})'
+
+
+def operand_kinds(o, acc):
+    acc.add(o[0])
+    if o[0] in ('seq', 'tup'):
+        for x in o[1]:
+            operand_kinds(x, acc)
+    elif o[0] == 'call':
+        operand_kinds(o[1], acc)
+    return acc
+
+
+def obs_result(r):
+    from kingdon import MultiVector
+    if isinstance(r, MultiVector):
+        return ('mv', oc.observe(r))
+    if isinstance(r, list):
+        return ('seq', [obs_result(x) for x in r])
+    if isinstance(r, tuple):
+        return ('tup', [obs_result(x) for x in r])
+    raise Unobservable(type(r).__name__)
+
+
+def result_term(r):
+    if r[0] == 'mv':
+        return f'(RMv ({oc.mv_term(r[1])} : mv Z))'
+    return f'({"RSeq" if r[0] == "seq" else "RTup"} ({kv.blist(result_term(x) for x in r[1])} : list (result Z)))'
+
+
+def result_same(a, b):
+    if a[0] != b[0]:
+        return False
+    if a[0] == 'mv':
+        return oc.same_element(a[1], b[1]) and {k for k, _ in a[1]} == {k for k, _ in b[1]}
+    return len(a[1]) == len(b[1]) and all(result_same(x, y) for x, y in zip(a[1], b[1]))
+
+
+def spec_norm(alg, f, l, r):
+    """what the property demands of `l op r`: callables replaced by their values, a sequence on the right, then on
+    the left, gives the sequence of results in order, a number is the scalar multivector, operand order kept"""
+    from kingdon import MultiVector
+
+    def strip(o):
+        while callable(o) and not isinstance(o, MultiVector):
+            o = o()
+        return type(o)(strip(x) for x in o) if isinstance(o, (list, tuple)) else o
+
+    def go(l, r):
+        if isinstance(r, (list, tuple)):
+            return type(r)(go(l, x) for x in r)
+        if isinstance(l, (list, tuple)):
+            return type(l)(go(x, r) for x in l)
+        w = lambda a: a if isinstance(a, MultiVector) else MultiVector.fromkeysvalues(alg, (0,), [a])
+        return f(w(l), w(r))
+    return go(strip(l), strip(r))
+
+
+def operand_case(pool, spec, algs2, opname, L, R_, form):
+    alg = algs2[0]
+    from kingdon import MultiVector
+    l, r = build_operand(algs2, L), build_operand(algs2, R_)
+    f = getattr(alg, opname)
+    oracle = None
+    try:
+        if form == 'infix':
+            got = oc.INFIX[opname](l, r)
+        else:
+            got = f(l, r)
+        out = obs_result(got)
+        exp = f'(Ok {result_term(out)})'
+        impl = out
+    except Unobservable as e:
+        out, exp, impl = None, '(Err EOther)', f'unobservable: {e}'
+    except Exception as e:  # noqa
+        out, exp, impl = type(e).__name__, f'(Err {err_name(e)})', type(e).__name__
+    try:
+        want = obs_result(spec_norm(alg, f, l, r))
+    except Exception as e:  # noqa
+        want = type(e).__name__
+    if isinstance(out, str) or isinstance(want, str):
+        if out != want:
+            oracle = f'implementation {impl}, the property demands {want}'
+    elif out is None or not result_same(out, want):
+        oracle = f'implementation {impl}, the property demands {want}'
+    ref, dfn = pool.ref(spec)
+    term = f'call_binary_total 0%nat (fun x y => Ok ({opname} Zops A x y)) {operand_term(L)} {operand_term(R_)}'
+    return {'check': algs.with_alg(ref, f'res_result_same A ({term}) {exp}'), 'coarse': None,
+            'show': algs.with_alg(ref, term, '(Err EOther)'), 'defs': [dfn],
+            'meta': {'clause': 'operand-normalisation', 'algebra': spec, 'op': opname, 'left': L, 'right': R_, 'form': form, 'impl': impl}}, oracle
+
+
+def storage_part(R, tier):
+    rng = R.rng
+    alg = algs.make_impl({'sig': [1, 1, 1]})
+    cases = []
+    n = 1 if tier == 'quick' else 25
+
+    def rand_X(kinds=('list', 'list', 'nd2', 'nd2', 'nd1')):
+        Xs = rand_store(rng, kinds=kinds)
+        k = len(store_entries(Xs))
+        keys = rng.sample(range(8), k)
+        if rng.random() < 0.05:
+            keys = keys + [8]          # len(keys) != len(values): only __getitem__ / items notice
+        return keys, Xs
+    for _ in range(450 * n):
+        keys, Xs = rand_X(('list', 'list', 'list', 'nd2', 'nd2', 'nd2', 'nd1'))
+        item = rand_item(rng, axis_len(Xs))
+        c, oracle = getitem_case(alg, keys, Xs, item)
+        cases.append(c)
+        R.count('clause=storage-getitem'); R.count('storage=' + store_kind(Xs))
+        R.count('index=' + ('tuple%d' % len(item) if isinstance(item, tuple) else type(item).__name__))
+        R.case(('sget', repr(Xs), repr(item)), True, sample={'clause': 'storage getitem', 'values': Xs, 'index': repr(item), 'result': c['meta']['impl']})
+        if oracle:
+            R.violation({'clause': 'storage-getitem'}, c['meta'], 'getitem: ' + oracle)
+    for _ in range(550 * n):
+        keys, Xs = rand_X()
+        keys = keys[:len(store_entries(Xs))]
+        item = rand_item(rng, axis_len(Xs))
+        V, mode = rand_rhs(rng, alg, keys, Xs, item)
+        c, oracle = setitem_case(alg, keys, Xs, item, V, mode)
+        cases.append(c)
+        R.count('clause=storage-setitem'); R.count('rhs=' + mode); R.count('storage=' + store_kind(Xs))
+        R.case(('sset', repr(Xs), repr(item), repr(V)), True, sample={'clause': 'storage setitem', 'values': Xs, 'index': repr(item), 'assigned': V, 'result': c['meta']['impl']})
+        if oracle:
+            R.violation({'clause': oracle[0]}, c['meta'], f'X[{item!r}] = V with values {Xs}, V = {V}: {oracle[1]}')
+    for _ in range(120 * n):
+        keys, Xs = rand_X()
+        what = rng.choice(['shape', 'itermv', 'itermv', 'itermv-axis', 'items', 'map1', 'map2'])
+        if what != 'items':
+            keys = keys[:len(store_entries(Xs))]
+        cases.append(misc_case(alg, keys, Xs, what))
+        R.count('clause=storage-' + what)
+        R.case(('smisc', what, repr(Xs)), True)
+    # operands
+    pool = algs.AlgPool()
+    for _ in range(8 * n):
+        d = rng.choice((2, 3))
+        sig = [rng.choice((1, 1, -1, 0)) for _ in range(d)]
+        sig2 = [(-1 if s == 1 else 1) for s in sig]
+        spec = {'sig': sig}
+        algs2 = (algs.make_impl(spec), algs.make_impl({'sig': sig2}))
+        canon = list(algs2[0].canon2bin.values())
+        keysets = [rng.sample(canon, rng.randint(1, 3)) for _ in range(3)]
+        for _ in range(45):
+            opname = rng.choice(['gp', 'gp', 'op', 'add', 'sub'])
+            L = rand_operand(rng, 3, keysets); R_ = rand_operand(rng, 3, keysets)
+            tops = (L[0], R_[0])
+            # the infix form runs the operator of the algebra of the multivector python dispatches to
+            own = [o for o in (L, R_) if o[0] == 'mv']
+            form = 'infix' if own and all(o[1] == 0 for o in own) and rng.random() < 0.5 and not (tops[0] == 'num' and L[2] == 'np') else 'call'
+            c, oracle = operand_case(pool, spec, algs2, opname, L, R_, form)
+            cases.append(c)
+            kinds = sorted(operand_kinds(L, set()) | operand_kinds(R_, set()))
+            R.count('clause=operand-normalisation'); R.count('operand-form=' + form)
+            for side, o in (('left', L), ('right', R_)):
+                R.count(f'{side}={o[0]}')
+            R.case(('onorm', algs.describe(spec), opname, repr(L), repr(R_), form), len(kinds) > 1 or kinds != ['mv'],
+                   sample={'clause': 'operand normalisation', 'op': opname, 'left': L, 'right': R_, 'result': c['meta']['impl']})
+            if oracle:
+                R.violation({'clause': 'operand-normalisation', 'op': opname, 'left': L[0], 'right': R_[0]}, c['meta'],
+                            f'{opname}({L}, {R_}) [{form}] in Algebra({algs.describe(spec)}): {oracle}')
+    bad, shown = kv.run_cases('C16', cases, imports='Model.All Model.Storage')
+    if bad:
+        # is the difference visible at the level of the property (coefficients, error class), or only in the kind of
+        # scalar / container the model predicts?
+        coarse = [dict(cases[i], check=cases[i]['coarse'] or cases[i]['check']) for i in bad]
+        still, _ = kv.run_cases('C16c', coarse, imports='Model.All Model.Storage')
+        still = {bad[j] for j in still}
+        for i in bad:
+            m = cases[i]['meta']
+            if i not in still:
+                R.fidelity_notes += 1
+                continue
+            R.violation({'clause': m['clause'] + '-model'}, dict(m, model=shown.get(i)),
+                        f'{m["clause"]}: implementation {m["impl"]} differs from the model (Model/Storage.v) on {({k: v for k, v in m.items() if k not in ("impl", "clause")})}'[:900])
 
 
 def replay(R, rec):
